@@ -4,7 +4,7 @@
 # check against it (VERIF_REPO), restore the worktree
 set -u
 f=$1; old=$2; new=$3; shift 4
-WT=/tmp/wt/mut
+WT=${MUTWT:-/tmp/wt/mut}
 if [ ! -d $WT ]; then mkdir -p /tmp/wt; git -C /repo worktree add -q --detach $WT HEAD || exit 3; fi
 git -C $WT checkout -q --detach $(git -C /repo rev-parse HEAD) 2>/dev/null
 git -C $WT checkout -q -- .
